@@ -74,6 +74,24 @@ def parse_diag(ans):
     return d, items
 
 
+# characters that the report renderer (ariadne) takes for line ends and the lexer does not: VT, FF, NEL, LS, PS (and a lone CR,
+# which the lexer rejects outside comments and literals)
+ARIADNE_ONLY_LINE_ENDS = "\x0b\x0c\x85\u2028\u2029\r"
+
+
+def parse_headers(ans):
+    """`line:column` of the first header of every rendered diagnostic, aligned with parse_diag's items (None if absent)"""
+    d = dict(x.split("=", 1) for x in ans.split(" ") if "=" in x)
+    raw = d.get("diags", "").split(",")
+    hs = d.get("hdrs", "").split(",")
+    out = []
+    for k, it in enumerate(raw):
+        if re.match(r"([DL])(\d+)@(.*):(\d+)-(\d+)/(\d+):(\d+)$", it):
+            mm = re.match(r"(\d+):(\d+)$", hs[k]) if len(hs) == len(raw) else None
+            out.append((int(mm.group(1)), int(mm.group(2))) if mm else None)
+    return out
+
+
 def main():
     rep = Reporter("C13")
     emitted, cat = regenerate_tables()
@@ -133,6 +151,13 @@ def main():
     # lexical errors at the very end of a file that does not end in a newline: the location must still lie inside the file
     for tail in ('"abc\\', "'\\", '"abc', "'a", '"\\x4', '"\\u{41', "0x", "1u7", "`", "\u00e9", '"abc\\\n', '"abc\\\r\n'):
         inputs.append([("m.pn", "fn main()\n{\n\tvar x = " + tail)])
+    # characters in comments and string literals that only the report renderer takes for line ends
+    for ch in ("\u2028", "\u2029", "\x85", "\x0c"):
+        inputs.append([("m.pn", "fn main()\n{\n\t// a%sb\n\tvar x: i32 = true;\n}\n" % ch)])
+        inputs.append([("m.pn", "fn main()\n{\n\tvar s = \"a%sb\"; var x: i32 = true;\n}\n" % ch)])
+    # file names with escapes in them
+    for path in ("\\x1b[31mred.pn", "a\\nb.pn", "\\tq.pn", "\u00e9.pn"):
+        inputs.append([("m.pn", 'import "%s";\nfn main()\n{\n}\n' % path)])
     inputs.append([("m.pn", "const A: usize = |:S|;\nconst B: usize = A + 16;\nconst C: usize = B + A;\nstruct S\n{\n\tbuf: [C]u8,\n}\nfn main()\n{\n}\n")])
     # diagnostics located at a type: every type to nesting depth 1 (2 in the thorough tier) in every position, as written
     # and with the type annotation wrapped over lines (the location of an annotation is built from the span of its tokens)
@@ -196,9 +221,20 @@ def main():
         problems = []
         if not d.get("render", "").startswith("ok"):
             problems.append("rendering: " + d.get("render", ""))
-        for (kind, code, fname, s, e, line, col) in items:
+        headers = parse_headers(a)
+        for k, (kind, code, fname, s, e, line, col) in enumerate(items):
             checked += 1
             dist["%s%d" % ("E" if kind == "D" else "L", code)] += 1
+            # what the user reads: the line in the header of the rendered report is the line of the location
+            if k < len(headers) and headers[k] is not None:
+                dist["rendered-header:compared"] += 1
+                if headers[k][0] != line:
+                    key = None
+                    if fname in srcs and any(c in srcs[fname][:s] for c in ARIADNE_ONLY_LINE_ENDS):
+                        key = "c13:rendered-line-after-a-unicode-line-separator"
+                    (rep.violation(key, {"why": "E%d is on line %d of %s; the rendered report says %d:%d" % (code, line, fname, headers[k][0], headers[k][1]),
+                                         "files": srcs, "harness_request": rq, "implementation": a[:600]})
+                     if key else problems.append("E%d: the rendered report names line %d, the location is on line %d" % (code, headers[k][0], line)))
             if code not in cat and code not in known_undoc:
                 problems.append("code %d not in the catalogue" % code)
             if fname not in srcs:
